@@ -53,11 +53,17 @@ func runC37(c *Ctx) {
 		}
 		nOuter, nInner := 0, 0
 		for _, ev := range rr.Events {
-			if ev.Kind != "backedge" {
+			if ev.Kind != "backedge" && ev.Kind != "backedge1" {
 				continue
 			}
 			env := term.Env{}
 			ok, miss, env2 := c.Holds(e, ev.Atoms, env, c.pats(which, nil, perMsg...))
+			if ev.Kind == "backedge1" {
+				// a loop of a directly called helper counts only if it is the signer loop (extracted)
+				if !ok || !e.T.Any(c.pats(which, nil, "lt(_, len("+signers+"))")[0], ev.Atoms, env2) {
+					continue
+				}
+			}
 			if !ok {
 				c.bad("C37/authenticate/message", fk, "", "the loop goes on to the next message/signer without "+clip(miss, 160))
 				continue
